@@ -87,7 +87,10 @@ class PickleStub:
 
 
 def instances(tier):
-    return [("crash.h%d" % n, dict(n=n)) for n in range(1, BOUNDS[tier]["histories"] + 1)]
+    out = [("crash.h%d" % n, dict(n=n, shape="edits")) for n in range(1, BOUNDS[tier]["histories"] + 1)]
+    # histories that create, edit and remove a resource (the removed path is gone when the history is read back)
+    out += [("crash.resources.h%d" % n, dict(n=n, shape="resources")) for n in range(0, BOUNDS[tier]["histories"])]
+    return out
 
 
 def _descs(hist):
@@ -96,6 +99,8 @@ def _descs(hist):
 
 def make_run(p):
     nchanges = p["n"]
+    shape = p.get("shape", "edits")
+    from harness import c18_script
 
     def run():
         fs = mfs.MFS(ROOT, FILES, DIRS)
@@ -115,18 +120,13 @@ def make_run(p):
         try:
             # session 1: some history, saved completely -> the "previous version" on disk
             p1 = rproject.Project(ROOT, save_history=True, save_objectdb=True, automatic_soa=False)
-            for i in range(nchanges):
-                cs1 = change.ChangeSet("change %d" % i)
-                cs1.add_change(change.ChangeContents(p1.get_file("a.py"), "def f(p):\n    return p\nx = f(%d)\n" % (i + 2)))
-                p1.do(cs1)
+            c18_script.session1(p1, nchanges, shape)
             p1.pycore.analyze_module(p1.get_file("a.py"))
             p1.close()
             old = _descs(p1.history)
             # session 2: reopen, change more, and die somewhere inside close()
             p2 = rproject.Project(ROOT, save_history=True, save_objectdb=True, automatic_soa=False)
-            cs = change.ChangeSet("second session")
-            cs.add_change(change.ChangeContents(p2.get_file("a.py"), "def f(p):\n    return [p]\ny = f(1)\n"))
-            p2.do(cs)
+            c18_script.session2(p2, shape)
             new = _descs(p2.history)
             # count the write events of an uninterrupted close on a copy of the state
             snap = fs.snapshot()
@@ -166,9 +166,9 @@ def make_run(p):
                 raise
             except BaseException as e:
                 return h.fail("cannot_open_after_crash", "after dying at write event #%s (%s) with pickle raising %s on a partial stream: %s: %s" % (
-                    "?", where, EXC_NAMES[kind_box.get("k", 0)], type(e).__name__, e), crash_event=where, disk=disk, exc=EXC_NAMES[kind_box.get("k", 0)], nchanges=nchanges, total=total)
+                    "?", where, EXC_NAMES[kind_box.get("k", 0)], type(e).__name__, e), crash_event=where, disk=disk, exc=EXC_NAMES[kind_box.get("k", 0)], nchanges=nchanges, shape=shape, total=total)
             if got not in (old, new, []):
-                return h.fail("history_mixed", "loaded undo list %s is neither the previous %s nor the new %s nor empty" % (got, old, new), crash_event=where, disk=disk, nchanges=nchanges, total=total)
+                return h.fail("history_mixed", "loaded undo list %s is neither the previous %s nor the new %s nor empty" % (got, old, new), crash_event=where, disk=disk, nchanges=nchanges, shape=shape, total=total)
             return h.sample(crash_event=where, loaded=got, total=total)
         finally:
             projmod.pickle = saved_pickle
